@@ -130,7 +130,7 @@ def run(ctx, out, tier):
         if l["variant"] in ("iterator", "await", "tree-cursor", "counter"):
             n_l += 1
             continue
-        if l["variant"] == "shrinking-slice":
+        if l["variant"] in ("shrinking-slice", "advancing-offset"):
             n_l += 1
             # the tag scanner: the advance past a rejected `<` must be exactly 1 (>= 1 terminates,
             # <= 1 skips no candidate tag)
